@@ -38,6 +38,9 @@ Definition value_position (t : dtype) (len i : nat) : bool :=
   | _ => false
   end.
 
+Lemma strategy_eq_dec : forall a b : strategy, {a = b} + {a <> b}.
+Proof. decide equality. Qed.
+
 Section ZstdProofs.
 Variable compress : bytes -> bytes.
 Variable decompress : bytes -> option bytes.
@@ -404,7 +407,7 @@ Lemma replace_nth_spec : forall i x l, (i < length l)%nat ->
   length (replace_nth i x l) = length l /\
   nth_error (replace_nth i x l) i = Some x /\
   forall j, j <> i -> nth_error (replace_nth i x l) j = nth_error l j.
-Proof.
+Proof. clear zstd_roundtrip.
   induction i as [|i IH]; intros x [|y l] Hlt; cbn [length] in Hlt; try lia.
   - cbn [replace_nth length nth_error]. split; [reflexivity|]. split; [reflexivity|].
     intros [|j] Hj; [congruence|reflexivity].
@@ -417,13 +420,35 @@ Lemma compress_pairs_spec : forall rest,
   length (compress_pairs compress rest) = length rest /\
   forall j, nth_error (compress_pairs compress rest) j =
             if Nat.odd j then option_map compress (nth_error rest j) else nth_error rest j.
-Proof.
+Proof. clear zstd_roundtrip.
   fix IH 1. intros [|k [|v r]]; cbn [compress_pairs length].
   - split; [reflexivity|]. intros j. destruct j; cbn; [reflexivity|]. destruct (Nat.odd (S j)); reflexivity.
   - split; [reflexivity|]. intros [|[|j]]; cbn [nth_error]; try reflexivity. destruct (Nat.odd (S (S j))); reflexivity.
   - destruct (IH r) as [L A]. split; [rewrite L; reflexivity|].
     intros [|[|j]]; cbn [nth_error]; try reflexivity. rewrite A.
     replace (Nat.odd (S (S j))) with (Nat.odd j) by (rewrite Nat.odd_succ_succ; reflexivity). reflexivity.
+Qed.
+
+Lemma compress_one_spec : forall c n c', compress_one compress c n = CForward c' ->
+  length c' = length c /\
+  nth_error c' n = option_map compress (nth_error c n) /\
+  forall j, j <> n -> nth_error c' j = nth_error c j.
+Proof. clear zstd_roundtrip.
+  intros c n c' H. unfold compress_one in H. destruct (nth_error c n) as [v|] eqn:En; [|discriminate].
+  inversion H; subst c'. assert (Hlt : (n < length c)%nat) by (apply nth_error_Some; congruence).
+  destruct (replace_nth_spec n (compress v) c Hlt) as (L & A & B).
+  split; [exact L|]. split; [rewrite A; reflexivity|exact B].
+Qed.
+
+Lemma pairs_forward_spec : forall name rest,
+  length (name :: compress_pairs compress rest) = length (name :: rest) /\
+  forall i, nth_error (name :: compress_pairs compress rest) i =
+            if Nat.leb 2 i && Nat.even i then option_map compress (nth_error (name :: rest) i)
+            else nth_error (name :: rest) i.
+Proof. clear zstd_roundtrip.
+  intros name rest. destruct (compress_pairs_spec rest) as [L A]. split; [cbn [length]; rewrite L; reflexivity|].
+  intros [|j]; [reflexivity|]. cbn [nth_error]. rewrite A. rewrite Nat.even_succ.
+  destruct j as [|j]; [reflexivity|]. cbn [Nat.leb andb]. reflexivity.
 Qed.
 
 (* compress_cmd: the command is forwarded with the same length; every position outside the value positions of its
@@ -434,60 +459,144 @@ Lemma untouched_cmd : forall s c c', compress_cmd s c = CForward c' ->
   (forall i, value_position (cmd_dtype c) (length c) i = false \/ s = Disabled -> nth_error c' i = nth_error c i) /\
   (forall i, s <> Disabled -> value_position (cmd_dtype c) (length c) i = true ->
              nth_error c' i = option_map compress (nth_error c i)).
-Proof.
+Proof. clear zstd_roundtrip.
   intros s c c' H.
-  destruct s.
-  - cbn in H. inversion H; subst c'. split; [reflexivity|]. split; [reflexivity|]. intros i Hd; contradiction.
-  - destruct c as [|name rest]; [cbn in H; inversion H; subst; split; [reflexivity|]; split; [reflexivity|intros i _ Hv; discriminate]|].
-    cbn [Compress.compress_cmd cmd_dtype] in *.
-    destruct (cmd_type name) eqn:Et; try discriminate;
-      try (inversion H; subst c'; split; [reflexivity|]; split; [reflexivity|intros i _ Hv; discriminate]).
-    all: try (unfold compress_one in H; match type of H with context [nth_error _ ?n] => destruct (nth_error (name :: rest) n) as [v|] eqn:En; [|discriminate] end;
-              inversion H; subst c';
-              match goal with |- context [replace_nth ?n _ _] =>
-                assert (Hlt : (n < length (name :: rest))%nat) by (apply nth_error_Some; congruence);
-                destruct (replace_nth_spec n (compress v) (name :: rest) Hlt) as (L & A & B) end;
-              split; [exact L|]; split;
-              [intros i [Hv|Hd]; [|discriminate]; cbn [value_position] in Hv; apply Nat.eqb_neq in Hv; apply B; exact Hv
-              |intros i _ Hv; cbn [value_position] in Hv; apply Nat.eqb_eq in Hv; subst i; rewrite A, En; reflexivity]).
-    all: inversion H; subst c'; destruct (compress_pairs_spec rest) as [L A];
-         (split; [cbn [length]; rewrite L; reflexivity|]); split.
-    all: try (intros i [Hv|Hd]; [|discriminate]; cbn [value_position] in Hv; destruct i as [|j]; [reflexivity|];
-              cbn [nth_error]; rewrite A; destruct (Nat.odd j) eqn:Eo; [|reflexivity];
-              destruct (nth_error rest j) as [x|] eqn:En; [|reflexivity]; exfalso;
-              assert ((j < length rest)%nat) by (apply nth_error_Some; congruence);
-              cbn [length] in Hv; rewrite Nat.even_succ, Eo in Hv;
-              assert (Nat.leb 2 (S j) = true) by (destruct j; [discriminate|reflexivity]);
-              assert (Nat.ltb (S j) (S (length rest)) = true) by (apply Nat.ltb_lt; lia);
-              rewrite H1, H2 in Hv; discriminate).
-    all: intros i _ Hv; cbn [value_position] in Hv; destruct i as [|j]; [discriminate|];
-         cbn [nth_error]; rewrite A; rewrite Nat.even_succ in Hv;
-         destruct (Nat.odd j); [reflexivity|rewrite andb_false_r in Hv; discriminate].
-  - destruct c as [|name rest]; [cbn in H; inversion H; subst; split; [reflexivity|]; split; [reflexivity|intros i _ Hv; discriminate]|].
-    cbn [Compress.compress_cmd cmd_dtype] in *.
-    destruct (cmd_type name) eqn:Et; try discriminate;
-      try (inversion H; subst c'; split; [reflexivity|]; split; [reflexivity|intros i _ Hv; discriminate]).
-    all: try (unfold compress_one in H; match type of H with context [nth_error _ ?n] => destruct (nth_error (name :: rest) n) as [v|] eqn:En; [|discriminate] end;
-              inversion H; subst c';
-              match goal with |- context [replace_nth ?n _ _] =>
-                assert (Hlt : (n < length (name :: rest))%nat) by (apply nth_error_Some; congruence);
-                destruct (replace_nth_spec n (compress v) (name :: rest) Hlt) as (L & A & B) end;
-              split; [exact L|]; split;
-              [intros i [Hv|Hd]; [|discriminate]; cbn [value_position] in Hv; apply Nat.eqb_neq in Hv; apply B; exact Hv
-              |intros i _ Hv; cbn [value_position] in Hv; apply Nat.eqb_eq in Hv; subst i; rewrite A, En; reflexivity]).
-    all: inversion H; subst c'; destruct (compress_pairs_spec rest) as [L A];
-         (split; [cbn [length]; rewrite L; reflexivity|]); split.
-    all: try (intros i [Hv|Hd]; [|discriminate]; cbn [value_position] in Hv; destruct i as [|j]; [reflexivity|];
-              cbn [nth_error]; rewrite A; destruct (Nat.odd j) eqn:Eo; [|reflexivity];
-              destruct (nth_error rest j) as [x|] eqn:En; [|reflexivity]; exfalso;
-              assert ((j < length rest)%nat) by (apply nth_error_Some; congruence);
-              cbn [length] in Hv; rewrite Nat.even_succ, Eo in Hv;
-              assert (Nat.leb 2 (S j) = true) by (destruct j; [discriminate|reflexivity]);
-              assert (Nat.ltb (S j) (S (length rest)) = true) by (apply Nat.ltb_lt; lia);
-              rewrite H1, H2 in Hv; discriminate).
-    all: intros i _ Hv; cbn [value_position] in Hv; destruct i as [|j]; [discriminate|];
-         cbn [nth_error]; rewrite A; rewrite Nat.even_succ in Hv;
-         destruct (Nat.odd j); [reflexivity|rewrite andb_false_r in Hv; discriminate].
+  assert (Hdis : s = Disabled -> c' = c).
+  { intros ->. cbn in H. inversion H. reflexivity. }
+  destruct c as [|name rest].
+  { assert (c' = []) by (destruct s; cbn in H; inversion H; reflexivity). subst c'.
+    split; [reflexivity|]. split; [reflexivity|]. intros i _ Hv. cbn in Hv. discriminate. }
+  assert (Hen : s <> Disabled ->
+            Compress.compress_cmd compress s (name :: rest) =
+               match cmd_type name with
+               | TGetset | TSet | TSetnx => compress_one compress (name :: rest) 2
+               | TPsetex | TSetex => compress_one compress (name :: rest) 3
+               | TMset | TMsetnx => CForward (name :: compress_pairs compress rest)
+               | TStrOther | TMget => match s with SetGetOnly => CRestricted | _ => CForward (name :: rest) end
+               | TGet | TOther => CForward (name :: rest)
+               end).
+  { intros Hs. destruct s; [contradiction| |]; reflexivity. }
+  destruct (strategy_eq_dec s Disabled) as [Hd|Hd].
+  { rewrite (Hdis Hd). split; [reflexivity|]. split; [reflexivity|]. intros i Hs; contradiction. }
+  rewrite (Hen Hd) in H. clear Hen Hdis. cbn [cmd_dtype].
+  assert (Hid : c' = name :: rest ->
+     length c' = length (name :: rest) /\
+     (forall i, value_position (cmd_type name) (length (name :: rest)) i = false \/ s = Disabled -> nth_error c' i = nth_error (name :: rest) i)).
+  { intros ->. split; reflexivity. }
+  destruct (cmd_type name) eqn:Et.
+  - (* TGet *) inversion H; subst c'. destruct (Hid eq_refl) as [L A]. split; [exact L|]. split; [exact A|]. intros i _ Hv; discriminate.
+  - (* TGetset *) destruct (compress_one_spec _ _ _ H) as (L & A & B). split; [exact L|]. split.
+    + intros i [Hv|Hs]; [|contradiction]. cbn [value_position] in Hv. apply Nat.eqb_neq in Hv. apply B. exact Hv.
+    + intros i _ Hv. cbn [value_position] in Hv. apply Nat.eqb_eq in Hv. subst i. exact A.
+  - (* TSet *) destruct (compress_one_spec _ _ _ H) as (L & A & B). split; [exact L|]. split.
+    + intros i [Hv|Hs]; [|contradiction]. cbn [value_position] in Hv. apply Nat.eqb_neq in Hv. apply B. exact Hv.
+    + intros i _ Hv. cbn [value_position] in Hv. apply Nat.eqb_eq in Hv. subst i. exact A.
+  - (* TSetnx *) destruct (compress_one_spec _ _ _ H) as (L & A & B). split; [exact L|]. split.
+    + intros i [Hv|Hs]; [|contradiction]. cbn [value_position] in Hv. apply Nat.eqb_neq in Hv. apply B. exact Hv.
+    + intros i _ Hv. cbn [value_position] in Hv. apply Nat.eqb_eq in Hv. subst i. exact A.
+  - (* TSetex *) destruct (compress_one_spec _ _ _ H) as (L & A & B). split; [exact L|]. split.
+    + intros i [Hv|Hs]; [|contradiction]. cbn [value_position] in Hv. apply Nat.eqb_neq in Hv. apply B. exact Hv.
+    + intros i _ Hv. cbn [value_position] in Hv. apply Nat.eqb_eq in Hv. subst i. exact A.
+  - (* TPsetex *) destruct (compress_one_spec _ _ _ H) as (L & A & B). split; [exact L|]. split.
+    + intros i [Hv|Hs]; [|contradiction]. cbn [value_position] in Hv. apply Nat.eqb_neq in Hv. apply B. exact Hv.
+    + intros i _ Hv. cbn [value_position] in Hv. apply Nat.eqb_eq in Hv. subst i. exact A.
+  - (* TMset *) inversion H; subst c'. destruct (pairs_forward_spec name rest) as [L A]. split; [exact L|]. split.
+    + intros i [Hv|Hs]; [|contradiction]. rewrite A. cbn [value_position] in Hv.
+      destruct (Nat.leb 2 i && Nat.even i) eqn:E; [|reflexivity]. cbn [andb] in Hv. apply Nat.ltb_ge in Hv.
+      assert (N1 : nth_error (name :: rest) i = None) by (apply nth_error_None; exact Hv). rewrite N1. reflexivity.
+    + intros i _ Hv. rewrite A. cbn [value_position] in Hv. apply andb_true_iff in Hv. destruct Hv as [Hv _]. rewrite Hv. reflexivity.
+  - (* TMsetnx *) inversion H; subst c'. destruct (pairs_forward_spec name rest) as [L A]. split; [exact L|]. split.
+    + intros i [Hv|Hs]; [|contradiction]. rewrite A. cbn [value_position] in Hv.
+      destruct (Nat.leb 2 i && Nat.even i) eqn:E; [|reflexivity]. cbn [andb] in Hv. apply Nat.ltb_ge in Hv.
+      assert (N1 : nth_error (name :: rest) i = None) by (apply nth_error_None; exact Hv). rewrite N1. reflexivity.
+    + intros i _ Hv. rewrite A. cbn [value_position] in Hv. apply andb_true_iff in Hv. destruct Hv as [Hv _]. rewrite Hv. reflexivity.
+  - (* TMget *) destruct s; try discriminate; try contradiction. inversion H; subst c'. destruct (Hid eq_refl) as [L A]. split; [exact L|]. split; [exact A|]. intros i _ Hv; discriminate.
+  - (* TStrOther *) destruct s; try discriminate; try contradiction. inversion H; subst c'. destruct (Hid eq_refl) as [L A]. split; [exact L|]. split; [exact A|]. intros i _ Hv; discriminate.
+  - (* TOther *) inversion H; subst c'. destruct (Hid eq_refl) as [L A]. split; [exact L|]. split; [exact A|]. intros i _ Hv; discriminate.
 Qed.
 
+(* decompress_reply rewrites only bulk strings of GET / GETSET replies and bulk elements of an MGET array *)
+Lemma untouched_reply : forall s t r,
+  (s = Disabled \/ (t <> TGet /\ t <> TGetset /\ t <> TMget) -> decompress_reply s t r = r)
+  /\ ((t = TGet \/ t = TGetset) -> (forall b, r <> Bulk b) -> decompress_reply s t r = r)
+  /\ (t = TMget -> (forall l, r <> Arr l) -> decompress_reply s t r = r).
+Proof. clear zstd_roundtrip.
+  intros s t r. split; [|split].
+  - intros [->|(A & B & C)]; [reflexivity|]. destruct s; [reflexivity| |]; destruct t; try reflexivity; congruence.
+  - intros Ht Hr. destruct s; [reflexivity| |]; destruct Ht as [-> | ->]; cbn; destruct r; try reflexivity; exfalso; eapply Hr; reflexivity.
+  - intros -> Hr. destruct s; [reflexivity| |]; cbn; destruct r; try reflexivity; exfalso; eapply Hr; reflexivity.
+Qed.
+
+(* a value that was stored without going through the compressor (written while compression was disabled, or by
+   APPEND under allow_all): GET answers whatever zstd makes of the raw bytes, nil when they are no zstd frame *)
+Lemma raw_value_read : forall s st k b, s <> Disabled -> lookup k st = Some b ->
+  snd (exec s st [n_GET; k]) = match decompress b with Some v => Bulk v | None => BulkNil end.
+Proof. clear zstd_roundtrip.
+  intros s st k b Hs Hl. unfold Compress.exec. change (cmd_type n_GET) with TGet. cbn iota.
+  unfold Compress.single.
+  assert (E : compress_cmd s [n_GET; k] = CForward [n_GET; k]) by (destruct s; reflexivity). rewrite E.
+  unfold backend. change (cmd_type n_GET) with TGet. cbn iota. cbn [snd cmd_dtype]. change (cmd_type n_GET) with TGet.
+  unfold get_reply. rewrite Hl. destruct s; [contradiction| |]; reflexivity.
+Qed.
+
+(* ---------- restricted mode ---------- *)
+
+Lemma restricted : forall name args st, cmd_type name = TStrOther ->
+  exec SetGetOnly st (name :: args) = (st, Error MSG_RESTRICTED)
+  /\ compress_cmd SetGetOnly (name :: args) = CRestricted.
+Proof. clear zstd_roundtrip.
+  intros name args st Ht. unfold Compress.exec, Compress.single. cbn [Compress.compress_cmd]. rewrite Ht. split; reflexivity.
+Qed.
+
+Lemma disabled_identity : forall c t r, compress_cmd Disabled c = CForward c /\ decompress_reply Disabled t r = r.
+Proof. clear zstd_roundtrip. intros. split; reflexivity. Qed.
+
 End ZstdProofs.
+
+(* ---------- the proxy's own table of string commands ---------- *)
+
+Definition nine_lower : list bytes :=
+  [[103; 101; 116] (* get *); [103; 101; 116; 115; 101; 116] (* getset *); [115; 101; 116] (* set *);
+   [115; 101; 116; 110; 120] (* setnx *); [115; 101; 116; 101; 120] (* setex *); [112; 115; 101; 116; 101; 120] (* psetex *);
+   [109; 115; 101; 116] (* mset *); [109; 115; 101; 116; 110; 120] (* msetnx *); [109; 103; 101; 116] (* mget *)].
+
+Lemma table_other_restricted : forall name, In name string_table -> existsb (bytes_eqb name) nine_lower = false ->
+  cmd_type name = TStrOther.
+Proof.
+  intros name Hin Hn. unfold string_table in Hin.
+  repeat (destruct Hin as [<-|Hin]; [first [reflexivity | (vm_compute in Hn; discriminate)]|]).
+  destruct Hin.
+Qed.
+
+Lemma table_nine_typed : forall name, In name nine_lower -> nine (cmd_type name) /\ In name string_table.
+Proof.
+  intros name Hin. unfold nine_lower in Hin.
+  repeat (destruct Hin as [<-|Hin]; [split; [split; vm_compute; discriminate|vm_compute; tauto]|]).
+  destruct Hin.
+Qed.
+
+Lemma restricted_names_typed : forall name, In name restricted_names -> cmd_type name = TStrOther.
+Proof.
+  intros name Hin. unfold restricted_names in Hin.
+  repeat (destruct Hin as [<-|Hin]; [reflexivity|]). destruct Hin.
+Qed.
+
+Lemma table_counts : length string_table = 23%nat /\ length nine_lower = 9%nat /\
+  length (filter (fun n => negb (existsb (bytes_eqb n) nine_lower)) string_table) = 14%nat.
+Proof. vm_compute. repeat split. Qed.
+
+(* names the proxy's DataCmdType does not know are not refused: they are forwarded unchanged and would see the
+   compressed bytes (SUBSTR, GETDEL, GETEX, ... : outside the supported-command table) *)
+Lemma outside_table_forwarded : forall compress s args,
+  Compress.compress_cmd compress s (n_SUBSTR :: args) = CForward (n_SUBSTR :: args) /\
+  Compress.compress_cmd compress s (n_GETDEL :: args) = CForward (n_GETDEL :: args) /\
+  Compress.compress_cmd compress s (n_GETEX :: args) = CForward (n_GETEX :: args).
+Proof. intros compress s args. destruct s; repeat split; reflexivity. Qed.
+
+Lemma table_restricted_exec : forall compress decompress name args st,
+  In name string_table -> existsb (bytes_eqb name) nine_lower = false ->
+  Compress.exec compress decompress SetGetOnly st (name :: args) = (st, Error MSG_RESTRICTED).
+Proof.
+  intros compress decompress name args st Hin Hn.
+  apply (restricted compress decompress name args st). apply table_other_restricted; assumption.
+Qed.
